@@ -54,9 +54,9 @@ var voteMenu = [][]sig{
 	4:  {{"A", 2}, {"B", 1}},
 	5:  {{"A", 1}, {"B", 2}},
 	6:  {{"C", 5}},
-	7:  {{"A", 6}},                              // above either voter's base power
-	8:  {{"A", 4}, {"B", 2}},                    // sum 6
-	9:  {{"A", 1 << 62}},                        // far above
+	7:  {{"A", 6}},                               // above either voter's base power
+	8:  {{"A", 4}, {"B", 2}},                     // sum 6
+	9:  {{"A", 1 << 62}},                         // far above
 	10: {{"A", maxI64}, {"B", maxI64}, {"C", 2}}, // integer sum 2^64: wraps to 0 in int64
 	11: {{"A", maxI64}, {"B", maxI64}, {"C", 5}}, // wraps to 3
 	12: {{"A", maxI64}, {"B", 1}},                // wraps negative
@@ -389,6 +389,10 @@ func configs(quick bool) []Cfg {
 			{Step: 2, MinInterval: 10, MaxInterval: 60, MaxFeeds: 3, UpdateEvery: 2, Depth: 5, Voters: 2, Votes: base},
 			{Step: 3, MinInterval: 20, MaxInterval: 50, MaxFeeds: 1, UpdateEvery: 1, Depth: 5, Voters: 2, Votes: []int{0, 1, 2, 3, 6}},
 			{Step: 2, MinInterval: 10, MaxInterval: 60, MaxFeeds: 3, UpdateEvery: 2, Depth: 5, Voters: 1, Votes: []int{0, 1, 2, 4, 6}, DenomEvent: true},
+			// the maximum number of current feeds at the extremes of its type (accepted by parameter validation)
+			{Step: 2, MinInterval: 10, MaxInterval: 60, MaxFeeds: 1 << 62, UpdateEvery: 1, Depth: 3, Voters: 1, Votes: []int{0, 1, 4}},
+			{Step: 2, MinInterval: 10, MaxInterval: 60, MaxFeeds: 1 << 63, UpdateEvery: 1, Depth: 3, Voters: 1, Votes: []int{0, 1, 4}},
+			{Step: 2, MinInterval: 10, MaxInterval: 60, MaxFeeds: 1<<64 - 1, UpdateEvery: 1, Depth: 3, Voters: 1, Votes: []int{0, 1, 4}},
 		}
 	}
 	all := make([]int, len(voteMenu))
@@ -400,6 +404,9 @@ func configs(quick bool) []Cfg {
 		{Step: 3, MinInterval: 20, MaxInterval: 50, MaxFeeds: 1, UpdateEvery: 1, Depth: 6, Voters: 2, Votes: []int{0, 1, 2, 3, 6, 7}},
 		{Step: 1, MinInterval: 1, MaxInterval: 7, MaxFeeds: 2, UpdateEvery: 3, Depth: 6, Voters: 2, Votes: []int{0, 1, 2, 3, 4, 5, 6, 8}},
 		{Step: 2, MinInterval: 10, MaxInterval: 60, MaxFeeds: 3, UpdateEvery: 2, Depth: 7, Voters: 2, Votes: []int{0, 1, 2, 4, 6}, DenomEvent: true},
+		{Step: 2, MinInterval: 10, MaxInterval: 60, MaxFeeds: 1 << 62, UpdateEvery: 1, Depth: 5, Voters: 2, Votes: []int{0, 1, 2, 4, 6}},
+		{Step: 2, MinInterval: 10, MaxInterval: 60, MaxFeeds: 1 << 63, UpdateEvery: 1, Depth: 5, Voters: 2, Votes: []int{0, 1, 2, 4, 6}},
+		{Step: 2, MinInterval: 10, MaxInterval: 60, MaxFeeds: 1<<64 - 1, UpdateEvery: 1, Depth: 5, Voters: 2, Votes: []int{0, 1, 2, 4, 6}},
 	}
 }
 
